@@ -50,6 +50,8 @@ pub struct ClusterWorld {
     pub invalid_delivered: Vec<Vec<bool>>,
     pub blocks_known: BTreeMap<BlockId, BlockId>,
     pub out_of_scope: bool,
+    /// cap on messages recorded per node (raised during fair completion)
+    pub msg_cap: usize,
 }
 
 #[derive(Clone, Debug)]
@@ -146,7 +148,7 @@ impl ClusterSys {
 
     fn collect(&self, w: &mut ClusterWorld, n: usize) {
         for m in w.cores[n].take_out() {
-            if w.emitted[n].len() < self.max_msgs {
+            if w.emitted[n].len() < w.msg_cap {
                 w.emitted[n].push(m);
             } else {
                 w.out_of_scope = true;
@@ -178,6 +180,95 @@ impl ClusterSys {
         self.settle(w, n);
     }
 
+
+    fn deliver_block(&self, w: &mut ClusterWorld, i: usize, k: usize) {
+        w.blocks_delivered[i][k] = true;
+        let (b, p) = self.alpha.blocks[k];
+        let slot = Slot::new(b.slot);
+        if w.cores[i].first_shred.insert(b.slot) {
+            w.cores[i].blockstore_event(BlockstoreEvent::FirstShred(slot));
+        }
+        w.blocks_known.insert(blk_id(b), blk_id(p));
+        w.cores[i].blockstore_event(BlockstoreEvent::Block { slot, block_info: BlockInfo::verif_new(blk_hash(b), blk_id(p)) });
+        self.collect(w, i);
+        let o = w.cores[i].pool.add_block(blk_id(b), blk_id(p));
+        for e in o.events {
+            w.cores[i].q.push_back(e);
+        }
+        self.settle(w, i);
+    }
+
+    /// Fair completion ("the network becomes timely and the Byzantine validator falls silent"):
+    /// every pending broadcast is delivered in FIFO order to every real node, every block some
+    /// real node holds reaches the others (dissemination / repair), and whenever nothing is in
+    /// flight the next timeout of every armed window of the alphabet fires.  Runs until nothing
+    /// changes.  Returns the number of rounds.
+    pub fn fair_completion(&self, w: &mut ClusterWorld, timeouts_first: bool) -> usize {
+        verif_capture_timeouts(true);
+        w.msg_cap = 400;
+        let h = self.h();
+        let mut rounds = 0;
+        if timeouts_first {
+            // the (Byzantine) leader's blocks reach the remaining nodes only after those nodes
+            // have run out of patience: every node that holds no block of the window times out first
+            for i in 0..h {
+                if (0..self.alpha.blocks.len()).all(|k| !w.blocks_delivered[i][k]) {
+                    for win in &self.alpha.windows {
+                        while w.cores[i].timers.get(win).is_some_and(|s| *s < 5) {
+                            w.cores[i].fire_timer(*win);
+                            self.collect(w, i);
+                        }
+                    }
+                }
+            }
+        }
+        loop {
+            rounds += 1;
+            let mut progress = false;
+            for k in 0..self.alpha.blocks.len() {
+                if (0..h).any(|i| w.blocks_delivered[i][k]) {
+                    for i in 0..h {
+                        if !w.blocks_delivered[i][k] {
+                            self.deliver_block(w, i, k);
+                            progress = true;
+                        }
+                    }
+                }
+            }
+            loop {
+                let mut moved = false;
+                for i in 0..h {
+                    for j in 0..h {
+                        while w.next[i][j] < w.emitted[j].len() {
+                            let m = w.emitted[j][w.next[i][j]].clone();
+                            w.next[i][j] += 1;
+                            self.feed(w, i, &m);
+                            moved = true;
+                        }
+                    }
+                }
+                if !moved {
+                    break;
+                }
+                progress = true;
+            }
+            if !progress {
+                for i in 0..h {
+                    for win in &self.alpha.windows {
+                        if w.cores[i].timers.get(win).is_some_and(|s| *s < 5) {
+                            w.cores[i].fire_timer(*win);
+                            self.collect(w, i);
+                            progress = true;
+                        }
+                    }
+                }
+            }
+            if !progress || rounds > 60 || w.out_of_scope {
+                return rounds;
+            }
+        }
+    }
+
     fn descends(&self, w: &ClusterWorld, mut child: Blk, anc: Blk) -> bool {
         loop {
             if child == anc {
@@ -193,7 +284,7 @@ impl ClusterSys {
     }
 
     /// Agreement oracle: (a) the real nodes' own pools, (b) observers fed every formable certificate.
-    fn oracle(&self, w: &ClusterWorld, out: &mut StepOutcome) {
+    pub fn oracle(&self, w: &ClusterWorld, out: &mut StepOutcome) {
         // formable certificates
         let mut triples = Vec::new();
         for s in 1..=self.max_slot {
@@ -322,6 +413,7 @@ impl Sys for ClusterSys {
             invalid_delivered: vec![vec![false; self.alpha.invalid.len()]; h],
             blocks_known: BTreeMap::new(),
             out_of_scope: false,
+            msg_cap: self.max_msgs,
         }
     }
 
@@ -370,22 +462,7 @@ impl Sys for ClusterSys {
                 w.next[i][j] += 1;
                 self.feed(w, i, &m);
             }
-            CAct::Block(i, k) => {
-                w.blocks_delivered[i][k] = true;
-                let (b, p) = self.alpha.blocks[k];
-                let slot = Slot::new(b.slot);
-                if w.cores[i].first_shred.insert(b.slot) {
-                    w.cores[i].blockstore_event(BlockstoreEvent::FirstShred(slot));
-                }
-                w.blocks_known.insert(blk_id(b), blk_id(p));
-                w.cores[i].blockstore_event(BlockstoreEvent::Block { slot, block_info: BlockInfo::verif_new(blk_hash(b), blk_id(p)) });
-                self.collect(w, i);
-                let o = w.cores[i].pool.add_block(blk_id(b), blk_id(p));
-                for e in o.events {
-                    w.cores[i].q.push_back(e);
-                }
-                self.settle(w, i);
-            }
+            CAct::Block(i, k) => self.deliver_block(w, i, k),
             CAct::Invalid(i, k) => {
                 w.invalid_delivered[i][k] = true;
                 w.cores[i].blockstore_event(BlockstoreEvent::InvalidBlock(Slot::new(self.alpha.invalid[k])));
@@ -474,6 +551,146 @@ impl Sys for ClusterSys {
             0xffu8.hash(&mut h);
         }
         h.finish()
+    }
+}
+
+/// Liveness wrapper (C02): every state the prefix exploration reaches is completed fairly and
+/// the decided-window oracle is evaluated on the completed world.
+pub struct LiveSys {
+    pub inner: ClusterSys,
+    pub done: std::sync::Mutex<std::collections::HashSet<u64>>,
+    pub completions: std::sync::atomic::AtomicUsize,
+    pub max_rounds: std::sync::atomic::AtomicUsize,
+    /// outcomes of completions: (which slots ended notarized / skipped / both)
+    pub shapes: std::sync::Mutex<BTreeSet<String>>,
+}
+
+pub struct LiveWorld {
+    pub w: ClusterWorld,
+    pub hist: Vec<u16>,
+}
+
+impl LiveSys {
+    pub fn new(inner: ClusterSys) -> Self {
+        Self { inner, done: Default::default(), completions: Default::default(), max_rounds: Default::default(), shapes: Default::default() }
+    }
+
+    fn judge_completed(&self, w: &ClusterWorld, out: &mut StepOutcome) {
+        use std::sync::atomic::Ordering::Relaxed;
+        let _ = Relaxed;
+        if w.out_of_scope {
+            return;
+        }
+        let mut shape = String::new();
+        for (n, core) in w.cores.iter().enumerate() {
+            let pool = &core.pool.pool;
+            let fin = pool.finalized_slot().inner();
+            for win in &self.inner.alpha.windows {
+                let first = (*win).max(1);
+                let last = win + 3;
+                for s in first..=last {
+                    let skip = pool.has_skip_cert(Slot::new(s));
+                    let notar = pool.has_notar_or_fallback_cert(Slot::new(s));
+                    if n == 0 {
+                        shape.push(match (s <= fin, notar, skip) { (true, _, _) => 'F', (_, true, true) => 'B', (_, true, false) => 'N', (_, false, true) => 'S', _ => '?' });
+                    }
+                    if !(s <= fin || skip || notar) {
+                        out.push(
+                            "C02:slot-undecided-after-fair-completion".to_string(),
+                            format!("after every message was delivered and every timeout of the window fired, node v{} holds neither a skip nor a notarization(-fallback) certificate for slot {s} (finalized slot {fin})", self.inner.nodes[n]),
+                        );
+                        return;
+                    }
+                }
+                if pool.parents_ready(Slot::new(last + 1)).is_empty() && fin <= last {
+                    out.push(
+                        "C02:next-window-has-no-ready-parent".to_string(),
+                        format!("after fair completion node v{} has every slot of window {win} certified but no ready parent for slot {}: the next leader can never propose", self.inner.nodes[n], last + 1),
+                    );
+                    return;
+                }
+            }
+        }
+        // the real nodes agree on what was decided
+        self.shapes.lock().unwrap().insert(shape);
+    }
+}
+
+impl Sys for LiveSys {
+    type World = LiveWorld;
+
+    fn init(&self) -> LiveWorld {
+        LiveWorld { w: self.inner.init(), hist: Vec::new() }
+    }
+    fn num_actions(&self) -> usize {
+        self.inner.num_actions()
+    }
+    fn enabled(&self, w: &LiveWorld, h: &[u16], a: u16) -> bool {
+        // certificates the adversary aggregates are covered through Byzantine votes reaching real nodes
+        self.inner.enabled(&w.w, h, a)
+    }
+    fn step(&self, w: &mut LiveWorld, a: u16, check: bool) -> StepOutcome {
+        w.hist.push(a);
+        let mut out = self.inner.step(&mut w.w, a, false);
+        // panics of node cores are progress failures as well; safety keys stay with C01
+        out.violations.retain(|(k, _)| !k.starts_with("C01:") || k.starts_with("C01:node-panics"));
+        for v in out.violations.iter_mut() {
+            v.0 = v.0.replace("C01:node-panics", "C02:node-panics");
+        }
+        if !check || out.fatal || w.w.out_of_scope {
+            return out;
+        }
+        let d = self.inner.digest(&w.w);
+        if !self.done.lock().unwrap().insert(d) {
+            return out;
+        }
+        // rebuild a copy of the world and complete it fairly
+        let mut copy = self.inner.init();
+        for x in &w.hist {
+            let _ = self.inner.step(&mut copy, *x, false);
+        }
+        for timeouts_first in [false, true] {
+        if timeouts_first {
+            copy = self.inner.init();
+            for x in &w.hist {
+                let _ = self.inner.step(&mut copy, *x, false);
+            }
+        }
+        let r = std::panic::catch_unwind(std::panic::AssertUnwindSafe(|| self.inner.fair_completion(&mut copy, timeouts_first)));
+        match r {
+            Ok(rounds) => {
+                self.completions.fetch_add(1, std::sync::atomic::Ordering::Relaxed);
+                self.max_rounds.fetch_max(rounds, std::sync::atomic::Ordering::Relaxed);
+                if rounds > 60 {
+                    out.push("C02:fair-completion-does-not-quiesce".to_string(), "after 60 rounds of delivering everything and firing timeouts the nodes are still producing new messages".to_string());
+                } else {
+                    self.judge_completed(&copy, &mut out);
+                }
+            }
+            Err(p) => {
+                let msg = p.downcast_ref::<String>().cloned().or_else(|| p.downcast_ref::<&str>().map(|s| s.to_string())).unwrap_or_default();
+                out.push(format!("C02:node-panics-during-completion:{}", crate::engine::panic_class(&msg)), format!("a node core panicked while the pending messages were delivered: {msg}"));
+            }
+        }
+        if !out.violations.is_empty() {
+            for v in out.violations.iter_mut() {
+                if timeouts_first {
+                    v.1.push_str(" [completion: nodes without a block time out before the blocks reach them]");
+                }
+            }
+            break;
+        }
+        }
+        out
+    }
+    fn digest(&self, w: &LiveWorld) -> u64 {
+        self.inner.digest(&w.w)
+    }
+    fn describe(&self, a: u16) -> String {
+        self.inner.describe(a)
+    }
+    fn outcome(&self, w: &LiveWorld) -> u64 {
+        self.inner.outcome(&w.w)
     }
 }
 
